@@ -2,6 +2,7 @@ package flowcontrol
 
 import (
 	"fmt"
+	"sync"
 	"time"
 
 	"golang.org/x/time/rate"
@@ -23,6 +24,10 @@ func newTokenBucketFlowControl(name string, typ proxyv1alpha1.FlowControlSchemaT
 }
 
 type globalTokenBucket struct {
+	// mu makes reading the clock and taking the tokens one step, so that the
+	// readings the limiter sees never step back (a stale reading would credit
+	// the same interval twice); it also orders TryAcquireN with Resize.
+	mu      sync.Mutex
 	limiter *rate.Limiter
 	name    string
 	typ     proxyv1alpha1.FlowControlSchemaType
@@ -35,6 +40,8 @@ func (f *globalTokenBucket) Type() proxyv1alpha1.FlowControlSchemaType {
 }
 
 func (f *globalTokenBucket) TryAcquireN(instance string, n int32) bool {
+	f.mu.Lock()
+	defer f.mu.Unlock()
 	return f.limiter.AllowN(time.Now(), int(n))
 }
 
@@ -43,6 +50,8 @@ func (f *globalTokenBucket) String() string {
 }
 
 func (f *globalTokenBucket) Resize(n int32, burst int32) bool {
+	f.mu.Lock()
+	defer f.mu.Unlock()
 	resized := false
 	if f.qps != n || f.burst != burst {
 		f.limiter = rate.NewLimiter(rate.Limit(n), int(burst))
